@@ -1251,12 +1251,12 @@ def masks_defined(world: World, op: dict) -> bool:
         if op.get("pixels") is None or op.get("bad_pixels"):
             return True
         m = np.zeros(world.shape, dtype=bool)
-        m[tuple(np.asarray(a) for a in op["pixels"][1:])] = True
+        m[tuple(np.asarray(a, dtype=np.int64) for a in op["pixels"][1:])] = True
         return refs.shape3d_defined(m, sp)
     if op["op"] == "paint":
         t = op["time"]
         stroke = np.zeros(world.shape, dtype=bool)
-        stroke[tuple(np.asarray(a) for a in op["pixels"])] = True
+        stroke[tuple(np.asarray(a, dtype=np.int64) for a in op["pixels"])] = True
         frame = seg[t]
         v = int(op["value"])
         for lab in {int(x) for x in np.unique(frame[stroke]).tolist()} - {0, v}:
@@ -1267,7 +1267,7 @@ def masks_defined(world: World, op: dict) -> bool:
         if sf is not None:
             # the sub-edits of the second frame run before the refusal: their remainders count too
             stroke2 = np.zeros(world.shape, dtype=bool)
-            stroke2[tuple(np.asarray(a) for a in sf["pixels"])] = True
+            stroke2[tuple(np.asarray(a, dtype=np.int64) for a in sf["pixels"])] = True
             frame2 = seg[int(sf["time"])]
             for lab in {int(x) for x in np.unique(frame2[stroke2]).tolist()} - {0, v}:
                 rest = (frame2 == lab) & ~stroke2
